@@ -60,9 +60,10 @@ P = {
   "port mod 2^16 and an address text that the RFC 4291 reference parser maps to the canonical form of the announced address; banner first; nothing "
   "on the channel from reloads or bad info requests at verbosity 0.", "Lean 4 proof that every model output line is well-formed, for every history + the same predicate as Spec judge on implementation traces + correspondence"),
  "C10": ("proto", True,
-  "Lean theorems: the model's table size changes only by announcement (+1 or replace) and by disconnect/registered/verdict (-1). On the real code the "
+  "Lean theorem C10_history: after every history of chunks and timer expiries the count of live instances kept by the reader of both channels equals the "
+  "size of the request table, which is the figure the statistics line prints; the table size changes only by announcement (+1 or replace) and by disconnect/registered/verdict (-1). On the real code the "
   "'in use' figure of every statistics reply is compared with the Spec's live count, end of input must exit cleanly with zero live timer events "
-  "(event_new/event_free are wrapped).", "Lean 4 accounting lemmas + Spec judge on statistics replies + timer accounting in the harness"),
+  "(event_new/event_free are wrapped).", "Lean 4 proof that the reader's live count is the table size for every history + Spec judge on statistics replies + timer accounting in the harness"),
  "C11": ("proto", True,
   "Lean theorem: the model's rule scan assigns exactly the class of the first rule (in the compiled, name-sorted order) whose criteria all hold, "
   "none if none matches (classRules_first_match), with fnmatch as the modelled glob subset; D/R class fields and U lines of the real daemon are "
